@@ -168,7 +168,8 @@ def handle (key : String) (ins obs : List String) : Verdict :=
       let fail := firstFail [
         req (kind == "ok" || kind == "err") ("outcome:" ++ kind),
         req (!used.contains .fail || kind == "err") "io-error-not-propagated",
-        req (orig == "~" || !faultless script || (kind == "ok" && res == orig)) "roundtrip-under-chunking"]
+        req (orig == "~" || !faultless script || (kind == "ok" && res == orig)) "roundtrip-under-chunking",
+        req (ws.all (· ≥ 1)) "std-offered-an-empty-buffer"]
       { agree := model == " ".intercalate [kind, res, consumed, wants], model, fail,
         nontrivial := orig.length > 14 && !script.isEmpty,
         tags := [if isText then "rtext" else "rbytes", if orig == "~" then "noorig" else "orig"] ++ scriptTags script ++
